@@ -197,7 +197,127 @@ fn plant(e: &Expr, d: &mut Dec, planted: &mut usize) -> Expr {
     }
 }
 
-fn check_deep(case: &EvalCase) -> Verdict {
+// ---- conditions: None-valued and None-rule-valued conditions of if / and / or, through every evaluation path -------
+
+#[derive(Clone, Copy, Debug, PartialEq)]
+enum CondWant {
+    /// the condition evaluates to None: if / and / or reject it
+    Rejected,
+    /// the None rules make the condition this boolean
+    Is(bool),
+}
+
+fn conditions() -> Vec<(&'static str, Expr, CondWant)> {
+    use CondWant::*;
+    // (the crate's own constructor of the None literal)
+    let none = || Expr::none_value();
+    let vn = || Expr::reff("vn");
+    let miss = || Expr::index(Expr::reff("vm"), Index::Map("nokey".into()));
+    let i1 = || Expr::value(1);
+    vec![
+        ("none", none(), Rejected),
+        ("!none", Expr::not(none()), Rejected),
+        ("!vn", Expr::not(vn()), Rejected),
+        ("!vm.nokey", Expr::not(miss()), Rejected),
+        ("vm.nokey", miss(), Rejected),
+        ("-none", Expr::neg(none()), Rejected),
+        ("none + i1", Expr::add(none(), i1()), Rejected),
+        ("int(none)", Expr::int(none()), Rejected),
+        ("!(!none)", Expr::not(Expr::not(none())), Rejected),
+        ("none & true", Expr::bitwise_and(none(), Expr::value(true)), Rejected),
+        ("none == none", Expr::eq(none(), none()), Is(false)),
+        ("none != none", Expr::neq(none(), none()), Is(true)),
+        ("vn == vn", Expr::eq(vn(), vn()), Is(false)),
+        ("none == vn", Expr::eq(none(), vn()), Is(false)),
+        ("vm.nokey != vm.nokey", Expr::neq(miss(), miss()), Is(true)),
+        ("!(none == none)", Expr::not(Expr::eq(none(), none())), Is(true)),
+        ("none < i1", Expr::lt(none(), i1()), Is(false)),
+        ("!(none >= i1)", Expr::not(Expr::gte(none(), i1())), Is(true)),
+        ("is_none(none)", mk1("is_none", none()), Is(true)),
+        ("is_some(vn)", mk1("is_some", vn()), Is(false)),
+        ("[none] contains none", Expr::contains(Expr::Vec(vec![none()]), none()), Is(true)),
+        ("none contains i1", Expr::contains(none(), i1()), Is(false)),
+        ("none == none and true", Expr::and(Expr::eq(none(), none()), Expr::value(true)), Is(false)),
+        ("none != none or false", Expr::or(Expr::neq(none(), none()), Expr::value(false)), Is(true)),
+        ("(none == none) == false", Expr::eq(Expr::eq(none(), none()), Expr::value(false)), Is(true)),
+    ]
+}
+
+/// (text template with {c}, builder, expected value given the condition's boolean)
+type Frame = (&'static str, fn(Expr) -> Expr, fn(bool) -> Value);
+
+fn frames() -> Vec<Frame> {
+    vec![
+        ("if {c} then true else false", |c| Expr::iif(c, Expr::value(true), Expr::value(false)), |b| Value::Bool(b)),
+        ("if {c} then false else true", |c| Expr::iif(c, Expr::value(false), Expr::value(true)), |b| Value::Bool(!b)),
+        ("if {c} then i1 else i2", |c| Expr::iif(c, Expr::value(1), Expr::value(2)), |b| Value::Int(if b { 1 } else { 2 })),
+        (
+            "if {c} then \"equal\" else \"different\"",
+            |c| Expr::iif(c, Expr::value("equal"), Expr::value("different")),
+            |b| Value::String(if b { "equal" } else { "different" }.into()),
+        ),
+        ("if {c} then none else true", |c| Expr::iif(c, Expr::Value(Value::None), Expr::value(true)), |b| if b { Value::None } else { Value::Bool(true) }),
+        ("({c}) and true", |c| Expr::and(c, Expr::value(true)), |b| Value::Bool(b)),
+        ("true and ({c})", |c| Expr::and(Expr::value(true), c), |b| Value::Bool(b)),
+        ("({c}) or false", |c| Expr::or(c, Expr::value(false)), |b| Value::Bool(b)),
+        ("false or ({c})", |c| Expr::or(Expr::value(false), c), |b| Value::Bool(b)),
+        ("if if {c} then true else false then i1 else i2", |c| Expr::iif(Expr::iif(c, Expr::value(true), Expr::value(false)), Expr::value(1), Expr::value(2)), |b| Value::Int(if b { 1 } else { 2 })),
+    ]
+}
+
+fn condition_facts() -> Value {
+    pool::map(&[("vn", Value::None), ("vm", pool::map(&[("a", Value::Int(1))]))])
+}
+
+fn check_condition(ci: usize, fi: usize) -> Verdict {
+    let (ctext, cexpr, want) = conditions().swap_remove(ci);
+    let (ftext, build, value_of) = frames().swap_remove(fi);
+    let text = ftext.replace("{c}", ctext);
+    let built = build(cexpr);
+    let parsed = match crate::core::parse_guarded(&text) {
+        Some(Ok(e)) => e,
+        Some(Err(e)) => return Err(Issue::new("none-cond:text-does-not-parse", format!("{text:?} does not parse: {e}"))),
+        None => return Err(Issue::new("none-cond:panic", format!("Expr::parse panicked on {text:?}"))),
+    };
+    let facts = condition_facts();
+    for (via, e) in [("constructors", built), ("text", parsed)] {
+        let case = EvalCase::plain(e, facts.clone());
+        for path in ["Expr::evaluate", "RuleSet::evaluate_value"] {
+            let actual = if path == "Expr::evaluate" { observe(&case).actual } else { observe_via_ruleset(&case) };
+            let r = match actual {
+                Actual::Done(r) => r,
+                Actual::Panic(p) => return Err(Issue::new("none-cond:panic", format!("panic {p}; {text}"))),
+                Actual::Pending => return Err(Issue::new("none-cond:pending", format!("pending; {text}"))),
+            };
+            let ok = match (want, &r) {
+                (CondWant::Rejected, Err(reval::Error::InvalidType)) => true,
+                (CondWant::Is(b), Ok(v)) => same_value(v, &value_of(b), true),
+                _ => false,
+            };
+            if !ok {
+                return Err(Issue::new(
+                    format!("none-cond:{}:{via}:{path}", if want == CondWant::Rejected { "none-condition-not-rejected" } else { "none-rule-value-as-condition" }),
+                    format!(
+                        "`{text}` ({via}, {path}) on {}: the condition is {}, so the result must be {}; implementation returned {}",
+                        show_value(&facts),
+                        match want {
+                            CondWant::Rejected => "None".to_string(),
+                            CondWant::Is(b) => b.to_string(),
+                        },
+                        match want {
+                            CondWant::Rejected => "a type error".to_string(),
+                            CondWant::Is(b) => show_value(&value_of(b)),
+                        },
+                        me::show_actual(&r)
+                    ),
+                ));
+            }
+        }
+    }
+    Ok(())
+}
+
+pub(crate) fn check_deep(case: &EvalCase) -> Verdict {
     let o = observe(case);
     super::c02::judge(case, &o.actual, &o.model).map_err(|i| Issue::new(i.sig.replace("table:", "none-tree:"), i.msg))
 }
@@ -206,7 +326,7 @@ pub fn run(ctx: &Ctx) {
     ctx.set_rule(
         "Generated: every node kind x None in each operand position (left, right, both) x every value of the boundary pool as the \
          other operand (exhaustive), including partners that would be a type error without the None, == / != with a None left and \
-         a right operand that fails if evaluated, index steps into None, None as if/and/or condition; and random typed trees whose \
+         a right operand that fails if evaluated, index steps into None, None as if/and/or condition; 25 None-valued and None-rule-valued conditions (none, !none, !missing, none == none, !(none >= x), ...) in 10 if / and / or frames incl. literal true/false branches, built through constructors and through text, evaluated by Expr::evaluate and as a rule of a ruleset (exhaustive); and random typed trees whose \
          leaves are replaced by lookups that miss (missing key, index past the end, steps into those, a None input field). Oracle: \
          the statement's list as an independent table (cells); reference evaluator (trees). Non-trivial: the other operand is itself \
          not of a type the operator supports, or None arises from a lookup.",
@@ -214,6 +334,10 @@ pub fn run(ctx: &Ctx) {
     ctx.assume("table in harness/src/props/c04.rs transcribes the property statement");
 
     super::regressions::run(ctx, "C04", |j| {
+        if let Some(a) = j.get("none_condition").and_then(|a| a.as_array()) {
+            let (ci, fi) = (a.first()?.as_u64()? as usize, a.get(1)?.as_u64()? as usize);
+            return (ci < conditions().len() && fi < frames().len()).then(|| check_condition(ci, fi));
+        }
         if j.get("kind").map(|k| k.is_string()).unwrap_or(false) && j.get("pos").is_some() {
             NoneCell::from_json(j).map(|c| check_cell(&c))
         } else {
@@ -272,6 +396,23 @@ pub fn run(ctx: &Ctx) {
         },
         |i| cell(i).to_json(),
         "nonecell",
+    );
+
+    let (nc, nf) = (conditions().len() as u64, frames().len() as u64);
+    ctx.enumerate(
+        "none-conditions",
+        nc * nf,
+        true,
+        |i, acc| {
+            let (ci, fi) = ((i / nf) as usize, (i % nf) as usize);
+            acc.cell(if conditions()[ci].2 == CondWant::Rejected { "cond:none-valued" } else { "cond:none-rule-boolean" }, true);
+            if i % 7 == 0 {
+                acc.sample("cond", || frames()[fi].0.replace("{c}", conditions()[ci].0));
+            }
+            check_condition(ci, fi)
+        },
+        |i| serde_json::json!({"none_condition": [i / nf, i % nf], "text": frames()[(i % nf) as usize].0.replace("{c}", conditions()[(i / nf) as usize].0)}),
+        "nonecond",
     );
 
     // depth 2: every outer kind over every inner cell of a small pool containing None, in each operand position
@@ -335,9 +476,18 @@ pub fn run(ctx: &Ctx) {
 }
 
 pub fn replay(j: &serde_json::Value) -> Option<Verdict> {
+    if let Some(a) = j.get("none_condition").and_then(|a| a.as_array()) {
+        let (ci, fi) = (a.first()?.as_u64()? as usize, a.get(1)?.as_u64()? as usize);
+        return (ci < conditions().len() && fi < frames().len()).then(|| check_condition(ci, fi));
+    }
     if j.get("pos").is_some() {
         NoneCell::from_json(j).map(|c| check_cell(&c))
     } else {
         EvalCase::from_json(j).map(|c| check_deep(&c))
     }
+}
+
+/// Entry point of the `set_diff` fuzz target.
+pub(crate) fn fuzz_bytes(bytes: &[u8]) -> Verdict {
+    check_deep(&deep_case(bytes).0)
 }
